@@ -161,14 +161,15 @@ def structured_families() -> tuple[dict, dict]:
     return comps, fam
 
 
-def structured(rep, d) -> None:
-    comps, fam = structured_families()
+def structured(rep, d, pkg: str = "structured", comps=None, fam=None, doc=None, names=None) -> None:
+    if fam is None:
+        comps, fam = structured_families()
     schemas = {**comps, **{k: v[0] for k, v in fam.items()}}
     validity = codec.screen_validity([(ref(k), v[1]) for k, v in fam.items()], components=schemas)
-    doc = gen.mkdoc(schemas=schemas)
-    g = gen.generate(doc, d / "structured")
+    doc = doc or gen.mkdoc(schemas=schemas)
+    g = gen.generate(doc, d / pkg)
     if g["exc"] or g["rejected"] or g["diags"]:
-        rep.violate("C02/structured-family-not-generated", f"structured families did not generate cleanly: {g['exc'] or g['diags'][:2]}", doc=doc)
+        rep.violate(f"C02/{pkg}-family-not-generated", f"{pkg} families did not generate cleanly: {g['exc'] or g['diags'][:2]}", doc=doc)
         return
     # drive through a tiny inline runner (whole-document round trip)
     import subprocess
@@ -177,7 +178,7 @@ def structured(rep, d) -> None:
 import json, sys
 job = json.load(sys.stdin); sys.path.insert(0, job["parent"])
 import importlib
-m = importlib.import_module("structured.models")
+m = importlib.import_module(job["pkg"] + ".models")
 def plain(v):
     if v is None or isinstance(v, (bool, int, float, str)): return True
     if isinstance(v, list): return all(plain(x) for x in v)
@@ -185,7 +186,7 @@ def plain(v):
     return False
 out = {}
 for cls, insts in job["fam"].items():
-    C = getattr(m, cls); res = []
+    C = getattr(m, job["names"].get(cls, cls)); res = []
     for j in insts:
         try:
             o = C.from_dict(j); e = o.to_dict()
@@ -196,10 +197,10 @@ for cls, insts in job["fam"].items():
     out[cls] = res
 print(json.dumps(out))
 '''
-    p = subprocess.run([VENV_PY, "-I", "-c", script], input=json.dumps({"parent": str(d), "fam": {k: v[1] for k, v in fam.items()}}),
+    p = subprocess.run([VENV_PY, "-I", "-c", script], input=json.dumps({"parent": str(d), "pkg": pkg, "names": names or {}, "fam": {k: v[1] for k, v in fam.items()}}),
                        capture_output=True, text=True, timeout=300)
     if p.returncode != 0:
-        rep.violate("C02/structured-family-import", "structured package failed in the sandbox: " + p.stderr[-800:], doc=doc)
+        rep.violate(f"C02/{pkg}-family-import", f"{pkg} package failed in the sandbox: " + p.stderr[-800:], doc=doc)
         return
     res = json.loads(p.stdout.strip().splitlines()[-1])
     for (k, (schema, insts)), val in zip(fam.items(), validity):
@@ -208,17 +209,18 @@ print(json.dumps(out))
             if not ok:
                 continue
             if not r["ok"]:
-                rep.violate(f"C02/structured/{k}/valid-instance-rejected", f"{k}: valid instance {json.dumps(inst)} fails: {r['err']}", schema=schema, instance=inst)
+                rep.violate(f"C02/{pkg}/{k}/valid-instance-rejected", f"{k}: valid instance {json.dumps(inst)} fails: {r['err']}", schema=schema, instance=inst)
             elif not r["plain"]:
-                rep.violate(f"C02/structured/{k}/not-plain-json", f"{k}: encoded form is not plain JSON: {r['enc']}", schema=schema, instance=inst)
+                rep.violate(f"C02/{pkg}/{k}/not-plain-json", f"{k}: encoded form is not plain JSON: {r['enc']}", schema=schema, instance=inst)
             elif not r["same"] and isinstance(r["enc"], dict) and _only_added_empty_lists(inst, r["enc"]):
                 rep.violate("C02/absent-optional-list-becomes-empty/structured", f"{k}: {json.dumps(inst)} re-encodes as {json.dumps(r['enc'])}",
                             schema=schema, instance=inst, got=r["enc"])
             elif not r["same"]:
-                rep.violate(f"C02/structured/{k}/round-trip", f"{k}: {json.dumps(inst)} re-encodes as {json.dumps(r['enc'])}", schema=schema, instance=inst, got=r["enc"])
+                rep.violate(f"C02/{pkg}/{k}/round-trip", f"{k}: {json.dumps(inst)} re-encodes as {json.dumps(r['enc'])}", schema=schema, instance=inst, got=r["enc"])
             elif r["redec"] is not True:
-                rep.violate(f"C02/structured/{k}/redecode-differs", f"{k}: decoding the re-encoded value gives a different object", schema=schema, instance=inst)
-    rep.extra["structured_families"] = len(fam)
+                rep.violate(f"C02/{pkg}/{k}/redecode-differs", f"{k}: decoding the re-encoded value gives a different object", schema=schema, instance=inst)
+    rep.extra[f"{pkg}_families"] = len(fam)
+    rep.extra[f"{pkg}_valid_instances"] = sum(sum(1 for ok in val if ok) for val in validity)
 
 
 def run(rep) -> None:
@@ -248,6 +250,12 @@ def run(rep) -> None:
         rep.extra["trace_nonconforming"] = len(post[0]["nonconforming"]) - 1
         rep.extra["trace_K1_failures_by_TLC"] = len(post[0]["k1"])
         structured(rep, d)
+        # the construct zoo: rarely combined constructs with hand-written instances (screened by jsonschema like everything else)
+        from .. import zoo
+        zdoc = zoo.zoo_clean()
+        zs = zdoc["components"]["schemas"]
+        structured(rep, d, pkg="zoo", comps={k: v for k, v in zs.items() if k not in zoo.ZOO_INSTANCES}, fam={k: (zs[k], v) for k, v in zoo.ZOO_INSTANCES.items()}, doc=zdoc,
+                   names={"Annotated": "AnnotatedThing"})
         rep.sample({"descriptor": descs[len(descs) // 2]["d"], "schema": codec.schema_of(descs[len(descs) // 2]["d"]), "wire_classes": codec.WIRESEQ})
     finally:
         rmtree(d)
